@@ -542,8 +542,6 @@ Ltac msg_rw :=
   | H : b_refs _ = _ |- _ => rewrite H; clear H
   end.
 
-Ltac msg_invs H := repeat (let b := fresh "b" in let Hb := fresh "Hb" in msg_inv H b Hb).
-
 Lemma msg_info_refs info ic : ser_info info = Ok ic ->
   exists bits refs, ic = Cell ty_ordinary bits refs /\ (length refs <= 1)%nat /\ (s_depth ic < 1024)%N.
 Proof.
